@@ -20,7 +20,7 @@ func C17(r *core.Run) {
 	r.Explanation = "The bucket-name decision, decided statically: (R17.1) create-bucket calls the validator on the very name it creates, obeys it, and every validator error is InvalidBucketName; " +
 		"(R17.2) the validator is a sequence of reject-guards ending in acceptance whose length guard accepts exactly 3..63 (computed by evaluating the guard structure over all lengths), with a whole-name pattern test, an IP-address reject and a per-label pattern test over strings.Split(name, \".\"); " +
 		"(R17.3) the fs backend lists only directory entries that pass the validator; " +
-		"(R17.4) the language accepted by (length set ∧ whole-name pattern ∧ every label matches the pattern) — extracted from the regular-expression constant and the guards — equals the language of the property statement, decided by a product construction of the two automata over a representative alphabet for all lengths up to 65 (the IP predicate is the same uninterpreted atom on both sides). (R17.6) the router takes no naming decision of its own: on the way to createBucket the bucket name is only compared with the empty string. (R10.6, shared) the name the validator sees is the untransformed path segment (no case folding or cleaning on the way)."
+		"(R17.4) the language accepted by (length set ∧ whole-name pattern ∧ every label matches the pattern) — extracted from the regular-expression constant and the guards — equals the language of the property statement, decided by a product construction of the two automata over a representative alphabet for all lengths up to 65 (the IP predicate is the same uninterpreted atom on both sides). (R17.6) the router takes no naming decision of its own: on the way to createBucket the bucket name is only compared with the empty string. (R10.6, shared) the name the validator sees is the untransformed path segment (no case folding or cleaning on the way). (R16.3, shared) in virtual-host addressing the name is the Host header's label as sent: no case folding or replacement before the validator sees it."
 	r.NotDecided = "net.ParseIP semantics; per-backend agreement beyond the shared handler (bolt and memory do not re-validate); names longer than 65 characters are covered by the length guard, not by the automaton search"
 	ctx := oblig.NewCtx(r.P)
 	rule171(r)
@@ -31,6 +31,7 @@ func C17(r *core.Run) {
 	rule176(r)
 	rule106(r)
 	rule1013(r)
+	rule163(r, hostMiddlewares(r))
 }
 
 func rule171(r *core.Run) {
